@@ -280,9 +280,9 @@ def run(chk: Check, ctx: Any) -> None:
         else:
             tests = [norm(n.test) for n in walk_no_nested(jw.node) if isinstance(n, ast.If) and any(_registers(x) for x in ast.walk(n))]
             only_labels = any("SsbLabel)" in t and "SsbForeignLabel" not in t for t in tests)
-            if tests and all(re.fullmatch(r"not [\w.\[\]'\"]+\.synthetic", t) for t in tests):
+            if tests and all(re.fullmatch(r"not [\w.\[\]'\"]+\.synthetic( and [\w.\[\]'\"]+\.root\.op_code\.name == (OP_JUMP|'Jump'|\"Jump\"))?", t) for t in tests):
                 # the idiom of the break/continue writers: a vertex inserted by the loop pass is not an op and has no entry of its own (C09-R4)
-                chk.hold("C09-R3", "JumpWriteHandler:registers-always", jw, "registered on every path for the ops of the input (inserted vertices are skipped)")
+                chk.hold("C09-R3", "JumpWriteHandler:registers-always", jw, "registered on every path for the Jump ops of the input (inserted vertices, and the jumps written for Case ops, are skipped)")
             else:
               chk.decide("C09-R3", "JumpWriteHandler:registers-always", False if only_labels else None, jw,
                        f"the Jump op is registered only under `{tests[0] if tests else '?'}`: a jump into another routine is followed by a foreign label vertex, whose "
